@@ -11,6 +11,7 @@ import (
 
 	"verif/harness/bgen"
 	"verif/harness/gen"
+	"verif/harness/geo"
 	"verif/harness/oracle"
 	"verif/harness/vf"
 )
@@ -117,11 +118,54 @@ func degenerate(ps gen.PathSpec) (spike bool, mult int) {
 	return
 }
 
+// nearTouch reports whether a vertex of the path lies within 3e-8 (the sweep snaps to a grid of 1e-8) of an edge or
+// vertex that it is not part of, without lying exactly on it.
+func nearTouch(ps gen.PathSpec) bool {
+	segs, err := oracle.Decode(ps.Build().Data())
+	if err != nil {
+		return false
+	}
+	var vs []oracle.Pt
+	for _, s := range segs {
+		vs = append(vs, s.End())
+	}
+	for _, pl := range oracle.Sample(segs, 24) {
+		n := len(pl.P)
+		for i := 0; i < n; i++ {
+			a, b := pl.P[i], pl.P[(i+1)%n]
+			if a == b || (!pl.Closed && i == n-1) {
+				continue
+			}
+			for _, v := range vs {
+				if v == a || v == b {
+					continue
+				}
+				if d := oracle.DistSeg(v, a, b); d > 0 && d < 3e-8 {
+					return true
+				}
+			}
+		}
+	}
+	return false
+}
+
 func checkSettle(c Case, r *vf.R) error {
 	err := checkSettle1(c, r)
 	if err != nil {
 		// F02b: an open subpath among closed ones: Settle panics ("next node for result polygon is nil") in ~2% of such inputs
 		if r.Excluded("F02b", c.Open) {
+			return nil
+		}
+		// curved inputs are flattened first: the open findings of Flatten (C03) apply to their segments
+		if segs, derr := oracle.Decode(c.P.Build().Data()); derr == nil {
+			for _, sg := range segs {
+				if _, f := geo.FlattenBound(sg, canvas.Tolerance); f != "" && r.Excluded(f, true) {
+					return nil
+				}
+			}
+		}
+		// F02c: a vertex within the snap distance of an edge it does not lie on
+		if r.Excluded("F02c", nearTouch(c.P)) {
 			return nil
 		}
 		sp, mult := degenerate(c.P)
@@ -178,9 +222,13 @@ func checkSettle1(c Case, r *vf.R) error {
 	if oracle.SelfIntersects(in, 1e-9) {
 		r.NonTrivial()
 	}
+	// guard band: the snap grid for flat inputs; for curved ones the distance by which the flattening Settle works
+	// on may deviate from the curve (the bounds property C03 enforces for Flatten, per segment)
 	delta := 1e-6
-	if c.Curved {
-		delta = 2.5*canvas.Tolerance + 1e-6
+	for _, sg := range segs {
+		if b, _ := geo.FlattenBound(sg, canvas.Tolerance); b+1e-6 > delta {
+			delta = b + 1e-6
+		}
 	}
 	pts := samplePoints(c, segs)
 	for _, pt := range pts {
@@ -252,5 +300,5 @@ func checkSettle1(c Case, r *vf.R) error {
 
 func TestSettle(t *testing.T) {
 	vf.Run(t, vf.Prop[Case]{Sub: "settle", Gen: genCase, Check: checkSettle, Cases: vf.N(20000, 150000),
-		MaxRate: map[string]float64{"F02a": 0.0015, "F02b": 0.06}})
+		MaxRate: map[string]float64{"F02a": 0.0015, "F02b": 0.06, "F02c": 0.0002}})
 }
